@@ -52,5 +52,6 @@ def run(ctx):
     configs = [('C21', 1, 1, 0), ('C102u', 2, 2, 1)] if quick else [('C21', 1, 1, 0), ('C21', 2, 2, 0), ('C102u', 2, 2, 1), ('C22', 2, 2, 1), ('C22', 2, 1, 0)]
     hconf.shared = hconf.learn(poolconf.scen_for("C2", 1, 1, 0, JUDGE), crnd)
     poolconf.design_legs(ctx, configs, ['CallOK', 'NoBad', 'NoLeftovers', 'NoDeadlock'], False, ['CallOK'], hconf, crnd, 30 if quick else 300, 30 if quick else 300, JUDGE)
+    poolconf.factory_design_legs(ctx, quick, ['CallOK', 'NoBad', 'NoDeadlock'], 'stale', ['NoDeadlock'])
     rnd = random.Random(ctx.seed * 7919 + 103)
     C01.run_family(ctx, scenarios(rnd, quick), 200 if quick else 3000, "C03")
